@@ -84,7 +84,7 @@ pub struct Faults {
 #[derive(Clone, Debug)]
 pub struct Profile {
     /// weights per op kind, indexed as in `OPK_*`
-    pub w: [u32; 22],
+    pub w: [u32; 23],
     pub faults: Faults,
     pub min_len: u32,
     pub mean_len: u32,
@@ -113,10 +113,11 @@ pub const OPK_AUDITALL: usize = 18;
 pub const OPK_BULK: usize = 19;
 pub const OPK_BULK_DESTROY: usize = 20;
 pub const OPK_SPAWN: usize = 21;
+pub const OPK_CLONE_FROM: usize = 22;
 
 pub fn profile_for(prop: &str, rng: &mut Rng, cfg: BuildCfg) -> Profile {
     // base mix (swarm member)
-    let mut w: [u32; 22] = [30, 8, 0, 22, 10, 6, 4, 10, 2, 2, 0, 0, 1, 0, 0, 2, 0, 1, 0, 0, 0, 0];
+    let mut w: [u32; 23] = [30, 8, 0, 22, 10, 6, 4, 10, 2, 2, 0, 0, 1, 0, 0, 2, 0, 1, 0, 0, 0, 0, 0];
     match rng.below(6) {
         0 => {
             // churn heavy
@@ -277,6 +278,9 @@ pub fn profile_for(prop: &str, rng: &mut Rng, cfg: BuildCfg) -> Profile {
     }
     if f.fork && matches!(prop, "C03" | "C09" | "C13" | "C01") {
         w[OPK_SPAWN] = 2;
+    }
+    if f.fork {
+        w[OPK_CLONE_FROM] = if matches!(prop, "C13" | "C04") { 4 } else { 1 };
     }
     if !f.fork {
         w[OPK_CLONE] = 0;
@@ -473,6 +477,7 @@ pub fn gen_op(rng: &mut Rng, sh: &WorldShape, pr: &Profile) -> Op {
         OPK_REPLACE => Op::ReplaceArch { a, cap: None },
         OPK_BULK => Op::Bulk { a, n: [70u32, 130, 257, 300, 520, 1030, 2100, 4200][rng.weighted(&[6, 6, 6, 5, 4, 3, 2, 1])], p: rng.next() },
         OPK_SPAWN => Op::Spawn { c: rng.next() },
+        OPK_CLONE_FROM => Op::CloneFrom { n: rng.below(4) as u8 },
         OPK_BULK_DESTROY => Op::BulkDestroy { a, stride: 1 + rng.below(9) as u32, phase: rng.below(9) as u32 },
         _ => Op::AuditAll,
     }
